@@ -284,6 +284,10 @@ func c06Body(nPer int, twoWriters bool, early bool) func() {
 					simrt.Go(fmt.Sprintf("writer-%s-%d", me.name, wi), func() {
 						for j := 0; j < nPer; j++ {
 							p := fmt.Sprintf(`{"datagram":{"from":"%s","w":%d,"n":%d}}`, me.name, wi, j)
+							if j%2 == 1 {
+								// a payload whose datagram is not the first member of the object
+								p = fmt.Sprintf(`{"trace":"t","datagram":{"from":"%s","w":%d,"n":%d}}`, me.name, wi, j)
+							}
 							s := &sent{payload: p, writer: wi}
 							simrt.Touch("order")
 							s.begin = tick()
